@@ -901,7 +901,11 @@ func FunctionMap() map[string]physical.FunctionDetails {
 					Strict:        true,
 					Function: func(values []octosql.Value) (octosql.Value, error) {
 						i, f := math.Modf(values[0].Float)
-						return octosql.NewTime(time.Unix(int64(i), int64(float64(time.Second)*f))), nil
+						seconds, err := floatToInt(i)
+						if err != nil {
+							return octosql.ZeroValue, err
+						}
+						return octosql.NewTime(time.Unix(seconds, int64(float64(time.Second)*f))), nil
 					},
 				},
 			},
@@ -950,7 +954,11 @@ func FunctionMap() map[string]physical.FunctionDetails {
 					OutputType:    octosql.Int,
 					Strict:        true,
 					Function: func(values []octosql.Value) (octosql.Value, error) {
-						return octosql.NewInt(int64(values[0].Float)), nil
+						i, err := floatToInt(values[0].Float)
+						if err != nil {
+							return octosql.ZeroValue, err
+						}
+						return octosql.NewInt(i), nil
 					},
 				},
 				{
@@ -1228,4 +1236,13 @@ func FunctionMap() map[string]physical.FunctionDetails {
 			},
 		},
 	}
+}
+
+// floatToInt converts a float to an integer. Values an int64 can't hold are rejected,
+// as the result of converting them differs between platforms.
+func floatToInt(f float64) (int64, error) {
+	if math.IsNaN(f) || f >= 1<<63 || f < -(1<<63) {
+		return 0, fmt.Errorf("%v is out of the range of integers", f)
+	}
+	return int64(f), nil
 }
